@@ -88,12 +88,21 @@ def explore(cfg, script, prefix, depth, out, first_choices=None):
 
 
 def _shard(args):
-    name, cfg, script, depth, prefix = args
+    """Enumerate AND check one shard in a worker process."""
+    from harness import core
+    from harness.lib import consumer_check as K
+    from harness.lib import consumer_corr as CC
+
+    name, cfg, script, depth, prefix, pid = args
     out = []
     explore(cfg, script, prefix, depth, out)
     for sc, _ in out:
         sc["profile"] = "enum:" + name
-    return out
+    r = core.Result()
+    for i in range(0, len(out), 4000):
+        K.check_batch(pid, out[i:i + 4000], r, CC.MONITORS[pid], do_count=False)
+    return {"evaluations": r.evaluations, "distinct": list(r.distinct), "samples": [], "hist": {"enum_sequences": len(out), "profile=enum:" + name: len(out)},
+            "traces": r.traces_validated, "disagreements": r.disagreements, "monitor_failures": r.monitor_failures}
 
 
 def shards(depth_for):
@@ -105,7 +114,7 @@ def shards(depth_for):
         for e1 in enabled(run, 10):
             sc2, impl2, run2 = run_prefix(cfg, script, [e1])
             for e2 in enabled(run2, 20):
-                items.append((name, cfg, script, depth, [e1, e2]))
+                items.append((name, cfg, script, depth, [e1, e2], None))
     return items
 
 
@@ -113,13 +122,11 @@ def run(ctx, res, pid, names):
     from harness.lib import consumer_check as K
 
     depth_for = lambda name: 6 if name in ("group-timer", "group-reentrant") else 7  # noqa: E731
-    items = shards(depth_for)
+    items = [it[:5] + (pid,) for it in shards(depth_for)]
     workers = min(16, os.cpu_count() or 4)
     total = 0
     with multiprocessing.get_context("fork").Pool(workers) as pool:
         for part in pool.imap_unordered(_shard, items, chunksize=1):
-            for i in range(0, len(part), 4000):
-                K.check_batch(pid, part[i:i + 4000], res, names, do_count=False)
-            total += len(part)
+            total += part["hist"]["enum_sequences"]
+            K.merge(res, part)
     res.extra["bounded_exhaustive"] = {"sequences": total, "configs": [c[0] for c in CONFIGS], "depth": "7 (6 for the timer and re-entrant configurations)"}
-    res.count("enum_sequences", total)
